@@ -36,6 +36,8 @@ type Identity struct {
 	UserAdmin  bool
 	OAuthEmail string // OAuth identity ("" = no valid token)
 	OAuthAdmin bool
+	// Federated: a signed-in user known by a federated identity only (no e-mail)
+	Federated string
 }
 
 // RPC describes one API call, for fault scripts and logs.
@@ -103,6 +105,11 @@ func (p *Platform) Serve(w http.ResponseWriter, r *http.Request, service string,
 		if id.UserAdmin {
 			r.Header.Set("X-AppEngine-User-Is-Admin", "1")
 		}
+	}
+	if id.Federated != "" {
+		r.Header.Set("X-AppEngine-Federated-Identity", id.Federated)
+		r.Header.Set("X-AppEngine-Federated-Provider", "https://idp.example/")
+		r.Header.Set("X-AppEngine-User-Id", "fed-"+id.Federated)
 	}
 	ctx := internal.WithCallOverride(r.Context(), func(ctx context.Context, service, method string, in, out proto.Message) error {
 		return p.call(ctx, reqID, id, service, method, in, out)
